@@ -690,6 +690,21 @@ pub fn run(r: &mut Runner) {
             let raw = r.seed_case("http-seeds", i, 768, |c| {
                 if i % 4 == 0 {
                     Some(gen_random_request(c))
+                } else if i % 8 == 1 {
+                    // a signed browser-style POST form
+                    let mut b = c10::gen_form(c, 300);
+                    let mut form = b.form.clone();
+                    crate::refimpl::postform::sign_form(&mut form, &b.policy.to_base64(), &b.signer);
+                    b.form = form;
+                    let r = c10::form_request(&b.bucket, &b.form);
+                    Some(RawReq { method: r.method.clone(), uri: r.uri(), headers: r.headers.iter().map(|(n, v)| (n.clone(), v.clone().into_bytes())).collect(), body: r.body.clone(), cuts: vec![], http2: false })
+                } else if i % 8 == 2 {
+                    // a chunk-signed upload
+                    let datas = c08::payload_chunks(c, 3, 64);
+                    let u = c08::build_upload(c, datas, false);
+                    let mut r = u.req.clone();
+                    r.body = sigv4::encode_chunks(&u.chunks);
+                    Some(RawReq { method: r.method.clone(), uri: r.uri(), headers: r.headers.iter().map(|(n, v)| (n.clone(), v.clone().into_bytes())).collect(), body: r.body.clone(), cuts: vec![], http2: false })
                 } else {
                     let op = OPS[c.t.below(OPS.len())];
                     c07::capture(c, op).map(|mut b| {
